@@ -714,7 +714,7 @@ func stepSignature(steps json.RawMessage) string {
 }
 
 type stats struct {
-	cases, accepted, rejected, honest, honestProducerChecked, benignIdentical, panics atomic.Int64
+	cases, accepted, rejected, honest, honestProducerChecked, benignIdentical, panics, producerAnswers atomic.Int64
 	acceptedForged                                                                 atomic.Int64
 	perKind                                                                        sync.Map
 }
@@ -728,7 +728,6 @@ func TestDriver(t *testing.T) {
 	}()
 	salt = vh.Seed()*1_000_003 + 17
 	prop := vh.Env("VERIF_PROP", "C01")
-	mode := vh.Env("VERIF_MODE", "conform")
 	path := os.Getenv("VERIF_CASES")
 	if path == "" {
 		t.Fatal("VERIF_CASES not set")
@@ -759,10 +758,6 @@ func TestDriver(t *testing.T) {
 					rep.Inconclusivef("cannot parse case: %v: %.200s", err, line)
 					continue
 				}
-				if mode == "regress" {
-					runRegress(rep, prop, &tc, &st)
-					continue
-				}
 				runCase(rep, prop, &tc, &st, kindCount)
 				if tc.Hon && honestKept.Load() < 4000 {
 					honestKept.Add(1)
@@ -786,15 +781,27 @@ func TestDriver(t *testing.T) {
 		t.Fatal(err)
 	}
 
-	if mode == "regress" {
-		rep.Count("regress_cases", st.cases.Load())
-		rep.Count("regress_refused", st.rejected.Load())
-		rep.Count("regress_accepted_wrong", st.acceptedForged.Load())
-		rep.Set("mode", mode)
-		if st.cases.Load() == 0 {
-			rep.Inconclusivef("no pre-fix counterexample was replayed")
+	// counterexamples of the pre-fix range model (sensitivity / regression of the repaired defect)
+	if rp := os.Getenv("VERIF_REGRESS_CASES"); rp != "" {
+		var rst stats
+		rf, err := os.Open(rp)
+		if err != nil {
+			t.Fatal(err)
 		}
-		return
+		rsc := bufio.NewScanner(rf)
+		rsc.Buffer(make([]byte, 1<<20), 1<<26)
+		for rsc.Scan() {
+			var tc tcase
+			if err := json.Unmarshal(rsc.Bytes(), &tc); err != nil {
+				rep.Inconclusivef("cannot parse pre-fix counterexample: %v", err)
+				continue
+			}
+			runRegress(rep, prop, &tc, &rst)
+		}
+		rf.Close()
+		rep.Count("regress_cases", rst.cases.Load())
+		rep.Count("regress_refused", rst.rejected.Load())
+		rep.Count("regress_accepted_wrong", rst.acceptedForged.Load())
 	}
 	// sampled complement: byte / field level mutations of honest encodings
 	mutations := mutationPass(rep, prop, &honestPool)
@@ -807,6 +814,7 @@ func TestDriver(t *testing.T) {
 	rep.Count("honest_cases", st.honest.Load())
 	rep.Count("honest_identical_to_producers", st.honestProducerChecked.Load())
 	rep.Count("forged_identical_to_honest_bytes", st.benignIdentical.Load())
+	rep.Count("producer_answers_verified", st.producerAnswers.Load())
 	rep.Count("real_panics", st.panics.Load())
 	rep.Count("byte_mutations_sampled", mutations)
 	for k, c := range kindCount {
@@ -902,6 +910,29 @@ func runCase(rep *vh.Report, prop string, tc *tcase, st *stats, kindCount map[st
 		}
 	}
 	sig := stepSignature(tc.Steps)
+	// every answer of the repository's own producers (eds.Rsmt2D and the proofs cache) must verify and
+	// expose the committed shares; the two producers of (row) namespace data must agree byte for byte
+	if tc.Hon && prod != nil {
+		for codec, set := range prod {
+			for _, data := range set {
+				v := realVerify(tc.Req, sq.Roots, encoding{codec, data})
+				if !v.accepted || !sameShares(v.data, want) {
+					rep.Violate(fmt.Sprintf("%s/%s/honest-producer-rejected", prop, tc.Req.K),
+						fmt.Sprintf("an answer of the repository's producers for %+v (w=%d ns=%v, codec %s) does not verify / differs from the committed shares: %s",
+							tc.Req, tc.W, tc.Ns, codec, v.err),
+						map[string]any{"case": tc, "codec": codec, "seed": vh.Seed()})
+				}
+			}
+			if (tc.Req.K == "nd" || tc.Req.K == "rnd") && len(set) > 1 {
+				for _, data := range set[1:] {
+					if !bytes.Equal(data, set[0]) {
+						rep.Inconclusivef("the two producers (direct NMT build, proofs-cache tree walk) return different bytes for %+v w=%d ns=%v", tc.Req, tc.W, tc.Ns)
+					}
+				}
+			}
+		}
+		st.producerAnswers.Add(int64(len(prod["stream"]) + len(prod["proto"])))
+	}
 	for _, enc := range encs {
 		v := realVerify(tc.Req, sq.Roots, enc)
 		if v.panicked {
